@@ -257,6 +257,20 @@ def run_case(case, ctx):
                     exited.add(e[1]); alive.discard(e[1]); closed.add(e[1])
             i = j
         i += 1
+    # a doer that removed itself (even when that empties the member list) keeps running until it returns: the run may
+    # stop before its limit only when nothing is running any more
+    ncyc = sum(1 for e in run.trace if e[0] == "cycle")
+    xb = next((e for e in run.trace if e[0] == "sched-exit-begin" and e[1] == "doist"), None)
+    if run.result[0] == "return" and xb is not None:
+        ctx.count("run_ends_judged")
+        if ncyc * prog["tock"] < prog["limit"] and xb[3].get("alive"):
+            ctx.violation("run-ended-before-its-limit-with-doers-still-running",
+                          f"do() returned after {ncyc} cycles (limit {prog['limit']} = {prog['limit'] / prog['tock']} cycles) "
+                          f"and force-closed {xb[3].get('alive')}; scheduler.doers at the end={[run.name_of(d) for d in run.doist.doers]}",
+                          trace=tr)
+            return
+        if not run.doist.doers and xb[3].get("alive"):
+            ctx.count("runs_stopped_at_limit_with_empty_member_list_and_a_running_self_removed_doer")
     final = [run.name_of(d) for d in run.sched(target).doers]
     if final != model:
         ctx.violation("doers-list-differs-from-model-at-end", f"scheduler.doers={final} model={model}", trace=tr)
